@@ -7,7 +7,8 @@ s=open(p).read()
 assert s.count(old)>=1, "pattern not found"
 open(p,'w').write(s.replace(old,new,1))
 try:
-    r=subprocess.run(['/verif/check',idn]+sys.argv[5:],capture_output=True,text=True,cwd='/verif')
+    import os
+    r=subprocess.run(['/verif/check',idn]+sys.argv[5:],capture_output=True,text=True,cwd='/verif',env=dict(os.environ,VF_LOCK_HELD='1'))
     lines=[l[:250] for l in r.stdout.splitlines() if any(k in l for k in('VIOLATION','KNOWN','INCONCLUSIVE','tier='))]
     print('\n'.join(lines[:6])); print('mutant exit',r.returncode)
 finally:
